@@ -2154,9 +2154,43 @@ pub fn swr_cases(r: &mut Rng, prop: &str, rows: &[(Page, u8)], regs: &[u8], per_
                 let mut c = Case::new(format!("sweep-reg/{}/{}", ["BC", "DE", "HL", "IX", "IY", "SP", "PC", "AF"][w as usize], tagof(page, op)));
                 c.key = tagof(page, op);
                 c.push(sbox(s.clone()), P_NONE);
-                c.push(Cmd::SWR { which: w, blk: 0, nblk: 1, fmask }, Proj { swr: bits, ..NONE });
+                c.push(Cmd::SWR { which: w, blk: 0, nblk: 1, fmask, link: None }, Proj { swr: bits, ..NONE });
                 cases.push(c);
             }
+        }
+    }
+    cases
+}
+
+/// two registers in a fixed relation (second = first + delta), the first one running through a block of values:
+/// pointers that are equal or one or two apart, SP equal to a pointer, counts equal to pointers
+pub fn swr_linked_cases(r: &mut Rng, prop: &str, rows: &[(Page, u8)], nblk: u32) -> Vec<Case> {
+    let bits = swr_bits(prop);
+    let pairs: [(u8, u8); 8] = [(2, 1), (2, 0), (1, 0), (2, 5), (5, 0), (3, 4), (2, 3), (1, 5)];
+    let deltas: [u16; 5] = [0, 1, 0xFFFF, 2, 0xFFFE];
+    let mut cases = vec![];
+    for &(page, op) in rows {
+        if is_block_repeat(page, op) {
+            continue;
+        }
+        let mut s = state_for(r, page, op);
+        s.top = 0xFFFF;
+        s.rom = None;
+        s.halt = false;
+        s.int = None;
+        s.nmi = false;
+        if s.seed == 0 {
+            s.seed = SEEDS[1 + op as usize % 5];
+        }
+        // every row gets every pair once, the delta and the block rotate
+        for (pi, &(w, l)) in pairs.iter().enumerate() {
+            let d = deltas[(pi + op as usize) % 5];
+            let fmask = if prop == "C10" { 0xFF } else if is_bit_row(page, op) { 0x53 } else { 0xD7 };
+            let mut c = Case::new(format!("sweep-pair/{}{}/{}", w, l, tagof(page, op)));
+            c.key = tagof(page, op);
+            c.push(sbox(s.clone()), P_NONE);
+            c.push(Cmd::SWR { which: w, blk: r.below(nblk as u64) as u32, nblk, fmask, link: Some((l, d)) }, Proj { swr: bits, ..NONE });
+            cases.push(c);
         }
     }
     cases
@@ -2176,7 +2210,7 @@ fn swr_pc_cases(r: &mut Rng, prop: &str, n: usize, tops: &[u16]) -> Vec<Case> {
         let mut c = Case::new(format!("sweep-reg/PC/top{:04X}", s.top));
         c.key = "sweep-pc".into();
         c.push(sbox(s), P_NONE);
-        c.push(Cmd::SWR { which: 6, blk: 0, nblk: 1, fmask: 0 }, Proj { swr: bits & !2, ..NONE });
+        c.push(Cmd::SWR { which: 6, blk: 0, nblk: 1, fmask: 0, link: None }, Proj { swr: bits & !2, ..NONE });
         cases.push(c);
     }
     cases
@@ -2190,6 +2224,7 @@ pub fn sweeps_for(prop: &str, r: &mut Rng, tier: &str) -> Vec<Case> {
     match prop {
         "C01" | "C02" | "C03" | "C04" => {
             let mut v = swr_cases(r, prop, &rows, &all, n);
+            v.extend(swr_linked_cases(r, prop, &rows, if quick(tier) { 16 } else { 1 }));
             if prop != "C02" {
                 v.extend(swr_pc_cases(r, prop, 5 * n, &[0xFFFF]));
             }
